@@ -13,3 +13,37 @@ impl LtRepoImpl for LtTarget {
         y
     }
 }
+
+#[entrait(LtDynRepoImpl, delegate_by = ref)]
+pub trait LtDynRepo {
+    fn pick<'a>(&'a self, x: &'a str, y: &'a str) -> &'a str;
+    fn elided(&self, x: &str) -> u8;
+}
+pub struct LtDynTarget;
+#[entrait(ref)]
+impl LtDynRepoImpl for LtDynTarget {
+    fn pick<'a, D>(deps: &'a D, x: &'a str, y: &'a str) -> &'a str {
+        y
+    }
+    fn elided<D>(deps: &D, x: &str) -> u8 {
+        0
+    }
+}
+pub struct App(LtDynTarget);
+impl AsRef<dyn LtDynRepoImpl<App>> for App {
+    fn as_ref(&self) -> &dyn LtDynRepoImpl<App> {
+        &self.0
+    }
+}
+impl DelegateLtRepo<Self> for App {
+    type Target = LtTarget;
+}
+fn client<'a>(app: &'a Impl<App>, s: &'a str) -> &'a str {
+    let a = LtRepo::pick(app, s, s);
+    let b = LtDynRepo::pick(app, s, s);
+    if app.elided(s) == 0 {
+        a
+    } else {
+        b
+    }
+}
